@@ -296,8 +296,8 @@ def match_finding(f, case):
 
 # ---- universes (defined in spec/MC_C03.tla, operator Conf) ------------------------------------------
 FAMILIES = {
-    'quick': ['q_nest', 'q_pairs', 'q_leaves', 'q_coal1', 'q_coal2', 'q_calls', 'q_modes'],
-    'thorough': ['t_nest', 't_nest5', 't_leaves', 't_coal', 't_calls', 't_callnest', 't_modes'],
+    'quick': ['q_nest', 'q_pairs', 'q_leaves', 'q_coal1', 'q_coal2', 'q_calls', 'q_modes', 'q_ref'],
+    'thorough': ['t_nest', 't_nest5', 't_leaves', 't_coal', 't_calls', 't_callnest', 't_modes', 't_ref'],
 }
 # wrong mechanism variants (GlomAuto env.mut) and the small universe on which TLC must report
 # the law violated
